@@ -90,6 +90,8 @@ class PoolGen:
                 return None
             k = free[0]
         host = "10.1.%d.%d" % (r.randint(0, 3), r.randint(1, 250))
+        if self.cfg.get("nat") and r.random() < 0.6:
+            host = "10.1.9.9"          # several agents behind one address (NAT): same source host, different ports
         if self.race:
             mode = r.choice(["ack", "ack", "err"])
         self.emit({"op": "Open", "conn": k, "mode": mode or r.choice(["ack", "ack", "ack", "slow", "err", "hang"]),
@@ -143,6 +145,9 @@ class PoolGen:
                     return          # no connection of its own to be had: one host identity per connection (how agents behave)
             self.used_by_host[k] = node
         uri = "" if r.random() < 0.6 else "enode://{%s}@10.9.0.%d:30303" % (node, r.randint(1, 9))
+        if self.cfg.get("nat") and r.random() < 0.5:
+            # what several operators copy from the same instructions: no id in it, or geth's own self-description
+            uri = r.choice(["enode://@10.9.0.7:30305", "enode://@10.9.0.7:30305", "enode://@[::]:30303", ""])
         op = {"op": "Connect", "conn": k, "full": full, "kind": r.choice(["geth", "geth", "parity", ""]),
               "payout": r.choice(["", "", "a1", "a2"]), "uri": uri,
               "ver": r.choice(["v", "Geth/v1.8.21-stable-9dc5d1a9/linux-amd64/go1.11.4", "Parity-Ethereum//v2.2.7-stable/x86_64-linux-gnu/rustc1.31.1",
